@@ -32,6 +32,47 @@ def is_panicky(t, uc, body, bb):
     return None
 
 
+def _stale_dropflag_edges(b, site_bb):
+    """Edges of cleanup switches on a drop flag that cannot be taken when unwinding from site_bb: the `flag == false` arm of a
+    flag no clearing block of which can reach the site."""
+    flags = {}
+    for blk in b.blocks:
+        for st in blk.stmts:
+            if st["k"] == "assign" and not st["place"]["p"]:
+                l = st["place"]["l"]
+                rv = st["rv"]
+                if rv["k"] == "use" and rv["op"].get("k") == "const" and rv["op"].get("ty") == "bool" and "val" in rv["op"]:
+                    flags.setdefault(l, []).append((blk.idx, rv["op"]["val"]))
+                else:
+                    flags.setdefault(l, []).append((blk.idx, None))
+        t = blk.term
+        if t["k"] == "call" and isinstance(t.get("dest"), dict) and not t["dest"]["p"]:
+            flags.setdefault(t["dest"]["l"], []).append((blk.idx, None))
+    out = set()
+    for blk in b.blocks:
+        t = blk.term
+        if not blk.cleanup or t["k"] != "switch":
+            continue
+        l = op_local(t["discr"])
+        ds = flags.get(l)
+        if l is None or not ds or any(v is None for _bb, v in ds) or l <= b.arg_count:
+            continue
+        last = {}
+        for x, v in ds:
+            last[x] = v          # statements are scanned in order: the last definition of a block wins
+        if site_bb in last:
+            may_be_clear = not last[site_bb]
+        else:
+            may_be_clear = any(not v and site_bb in b.reachable(b.term_succ(x, False), unwind=False, avoid=[y for y in last if y != x])
+                               for x, v in last.items())
+        if may_be_clear:
+            continue
+        for v, tg in t["arms"]:
+            if v == 0:
+                out.add((blk.idx, tg))
+    return out
+
+
 def run(ctx):
     ctx.explanation = EXPL
     ctx.not_decided = NOT
@@ -135,8 +176,11 @@ def run(ctx):
             if isinstance(uw, int) and guards:
                 gdrops = [x.idx for x in b.blocks if x.cleanup and x.term["k"] == "drop" and x.term["ty"].get("head") in guards]
                 if gdrops:
-                    okp, _ = b.must_pass([uw], gdrops, b.exits(("resume",)), unwind=True)
-                    protected = okp
+                    # a guard that is also moved somewhere later (an explicit `drop(guard)` at the end) is dropped on unwind under
+                    # a drop FLAG: the flag is still set at this site unless a block that clears it can reach the site
+                    inf_edges = _stale_dropflag_edges(b, bb)
+                    r_ = b.reachable([uw], True, avoid=gdrops, avoid_edges=inf_edges)
+                    protected = not any(e in r_ for e in b.exits(("resume",)))
             phase = "collection" if any(bb in b.successors_reach(r, False) and r in b.successors_reach(bb, False) for r in recvs) else "dispatch"
             ctx.ob("R1.scope-obligation", f"{short(b.key)}|{phase}|{callee_key(t['callee']).split('::')[-1]}|{t['callee']['full'][:40]}", protected, b.loc(t["span"]),
                    f"{why} can unwind out of {b.name} after a closure with an erased lifetime was handed to a worker and before all results were received"
@@ -217,6 +261,13 @@ def run(ctx):
             det += f"; loop driven by Iterator::next over {keys}"
             # no nested second loop: the call is in exactly one SCC -> approximated by a single driving next()
     ctx.ob("R2.call-count-shape", "iter_fn", ok, worker.loc(it[0][1]["span"]) if it else worker.loc(), det)
+    if it:
+        # the measured loop runs to the exhaustion of the prepared iteration states: no early exit (e.g. "another thread failed")
+        from ..analysis import loop_visits_all, POSITIONAL_CUT
+        # (`take(iterations)` is how the states are counted out when they are prepared: sanctioned)
+        okv, dv = loop_visits_all(worker, it[0][0], cutters=POSITIONAL_CUT - {"take"})
+        ctx.ob("R2.call-count-shape", "iter_fn.loop-runs-to-exhaustion", okv, worker.loc(it[0][1]["span"]),
+               dv + ("" if okv else " - a thread that leaves the loop early executes only a prefix of the requested iterations and still reports a normal result"))
     # prepare_iter_fn: called from the repeat_with closure, which is `take(n)`-bounded with n from iterations
     pi_sites = []
     for c in subs:
